@@ -22,7 +22,7 @@ func specC15() *propertySpec {
 			"package) or are sync.Map values used through their methods; draws read no other mutable shared state (C04 census). Not decided: user functions captured by Custom/Map/Filter.",
 		Rules: []ruleSpec{
 			{"C15-R1", "no-post-construction-store: generator fields are written only by the allocating function or inside Do of the object's own sync.Once", ruleC15R1},
-			{"C15-R2", "once-publication: a field written inside Once.Do is read only after a Do call on the same Once (or inside the Do function)", ruleC15R2},
+			{"C15-R2", "once-publication: a field written inside Once.Do is read only after a Do call on the same Once (or inside the Do function); a value published through a package-level sync.Map (Store/LoadOrStore/Swap) is complete when it is published: nothing is stored into it afterwards", func(r *Run) { ruleC15R2(r); rulePublishComplete(r) }},
 			{"C15-R3", "no-store-through-fields: nothing reachable from value/String stores through data loaded from a generator field or a package-level variable", ruleC15R3},
 			{"C15-R4", "package-state: package-level variables are stored only during initialisation, or are sync.Map used through methods", ruleC15R4},
 			{"C15-R5", "no-cross-check-coupling: nondeterminism/global-state census of the generation closure (shared with C04-R1)", func(r *Run) { nondetCensus(r, "generation", []string{"<generation>"}, false) }},
@@ -916,4 +916,85 @@ func containerType(t types.Type) bool {
 		return n > 0 && all
 	}
 	return false
+}
+
+// rulePublishComplete: what is handed to Store/LoadOrStore/Swap of a sync.Map is read by other goroutines from that
+// moment on; an element or field store into it that is reachable after the publication races with those readers and
+// lets them see a half-built table (other checks then draw other values than they would alone).
+func rulePublishComplete(r *Run) {
+	p := r.P
+	n := 0
+	for _, fn := range p.FuncList {
+		if fn.Blocks == nil {
+			continue
+		}
+		for _, cs := range p.calls(fn) {
+			vi := -1
+			switch cs.Key {
+			case "(*sync.Map).Store", "(*sync.Map).LoadOrStore", "(*sync.Map).Swap":
+				vi = 2
+			case "(*sync.Map).CompareAndSwap":
+				vi = 3
+			}
+			if vi < 0 || vi >= len(cs.Common.Args) {
+				continue
+			}
+			n++
+			pub := p.resolve(cs.Common.Args[vi])
+			if mi, ok := pub.(*ssa.MakeInterface); ok {
+				pub = p.resolve(mi.X)
+			}
+			name := p.hostName(fn)
+			bad := ""
+			var badPos token.Pos
+			// the published object and the values it was built from by append/slicing (same backing array)
+			same := func(v ssa.Value) bool {
+				v = p.resolve(v)
+				for i := 0; i < 6; i++ {
+					if v == pub {
+						return true
+					}
+					switch x := v.(type) {
+					case *ssa.Slice:
+						v = p.resolve(x.X)
+					case *ssa.UnOp:
+						return false
+					default:
+						return false
+					}
+				}
+				return false
+			}
+			for _, b := range p.body(fn) {
+				for _, in := range b.Instrs {
+					var target ssa.Value
+					switch x := in.(type) {
+					case *ssa.Store:
+						if _, ok := x.Addr.(*ssa.IndexAddr); ok {
+							target = addrRoot(x.Addr)
+						} else if _, ok := x.Addr.(*ssa.FieldAddr); ok {
+							target = addrRoot(x.Addr)
+						}
+					case *ssa.MapUpdate:
+						target = x.Map
+					case *ssa.Call:
+						if k := p.calleeKey(x.Common()); k == "builtin:copy" || strings.HasPrefix(k, "sort.") || strings.HasPrefix(k, "slices.Sort") {
+							if len(x.Common().Args) > 0 {
+								target = x.Common().Args[0]
+							}
+						}
+					}
+					if target == nil || !same(target) {
+						continue
+					}
+					if reachable(cs.Instr, in, nil) {
+						bad, badPos = p.pos(in.Pos()), in.Pos()
+					}
+				}
+			}
+			_ = badPos
+			r.Check(name+"#published-complete:"+p.expr(cs.Common.Args[0]), cs.Instr.Pos(), bad == "", "nothing is stored into the published value after "+cs.Key, "the value handed to "+cs.Key+" is still being filled after it was published (store at "+bad+"): a concurrently running check that finds the entry reads a half-built table and draws other values than it would alone")
+		}
+	}
+	r.Floor("publications through sync.Map", n, 3)
 }
